@@ -417,17 +417,45 @@ fn substring(
 ) -> error::Result<model::Value> {
     let mut args = args.iter();
     let v = String::try_from(args.next().unwrap())?;
-    let s = f64::try_from(args.next().unwrap())?.round() as usize - 1;
-    let c = if let Some(v) = args.next() {
-        Some(f64::try_from(v)?.round() as usize)
+    // The characters at positions p (counted from 1) with round(start) <= p and, if a length
+    // is given, p < round(start) + round(length). NaN compares false, infinities work.
+    let start = round_half_up(f64::try_from(args.next().unwrap())?);
+    let end = if let Some(v) = args.next() {
+        start + round_half_up(f64::try_from(v)?)
     } else {
-        None
+        f64::INFINITY
     };
-    let (_, mut r) = v.split_at(s);
-    if let Some(c) = c {
-        (r, _) = r.split_at(c);
+    let r = v
+        .chars()
+        .enumerate()
+        .filter(|(i, _)| {
+            let p = (i + 1) as f64;
+            start <= p && p < end
+        })
+        .map(|(_, c)| c)
+        .collect::<String>();
+    Ok(model::Value::Text(r))
+}
+
+/// The integer closest to the argument; of two equally close ones the one closer to
+/// positive infinity. NaN, the infinities and the zeros are returned as they are, and an
+/// argument in [-0.5, -0) gives negative zero.
+fn round_half_up(value: f64) -> f64 {
+    if value.is_nan() || value.is_infinite() {
+        return value;
     }
-    Ok(model::Value::Text(r.to_string()))
+
+    let floor = value.floor();
+    let rounded = if value - floor >= 0.5 {
+        floor + 1f64
+    } else {
+        floor
+    };
+    if rounded == 0f64 && value.is_sign_negative() {
+        -0f64
+    } else {
+        rounded
+    }
 }
 
 fn string_length(
@@ -440,7 +468,9 @@ fn string_length(
     } else {
         &model::Value::Node(vec![node])
     };
-    Ok(model::Value::Number(String::try_from(arg)?.len() as f64))
+    Ok(model::Value::Number(
+        String::try_from(arg)?.chars().count() as f64,
+    ))
 }
 
 fn normalize_space(
@@ -454,7 +484,11 @@ fn normalize_space(
         &model::Value::Node(vec![node])
     };
     let r = String::try_from(arg)?;
-    let w = r.split_whitespace().collect::<Vec<&str>>();
+    // White space is #x20, #x9, #xD and #xA only.
+    let w = r
+        .split([' ', '\t', '\r', '\n'])
+        .filter(|v| !v.is_empty())
+        .collect::<Vec<&str>>();
     Ok(model::Value::Text(w.join(" ")))
 }
 
@@ -594,5 +628,5 @@ fn round(
     _: &mut model::Context,
 ) -> error::Result<model::Value> {
     let arg = f64::try_from(args.first().unwrap())?;
-    Ok(model::Value::Number(arg.round()))
+    Ok(model::Value::Number(round_half_up(arg)))
 }
